@@ -38,7 +38,10 @@ var badSchemePool = []string{"", "1x", "h ttp", "ht\ttp", "+a", "http\n", "é", 
 var asciiLabels = []string{"example", "EXAMPLE", "a", "b", "com", "org", "h", "www", "a-b", "-a", "a-", "a_b", "localhost", "LocalHost", "LOCALHOST",
 	"xn--nxasmq6b", "XN--NXASMQ6B", "xn--a", "xn--", "xn--ab-miv", "axn--b", "x", "xn", "xn-", "0", "1", "255", "0x10", "1e3", "a1", "1a", "0xg", "09", "08", "00"}
 var nonAsciiLabels = []string{"ä", "Ä", "日本語", "a≠b", "a≮b", "≯", "ß", "ǅ", "a\u00adb", "a\u200db", "a\u200cb", "א", "א1", "1א", "１２３", "ａ", "Ａ",
-	"\u212a", "\u0130", "faß", "ﬁ", "é", "e\u0301", "\ufffd", "a\ufffdb", "☃", "\U0001F600", "١", "a\u0301", "\u0301a", "ｘｎ－－a", "a。b", "．", "ª", "²"}
+	"\u212a", "\u0130", "faß", "ﬁ", "é", "e\u0301", "\ufffd", "a\ufffdb", "☃", "\U0001F600", "١", "a\u0301", "\u0301a", "ｘｎ－－a", "a。b", "．", "ª", "²",
+	// the three characters the ASCII-or-misc fallback lets through, next to forbidden domain code points (the fallback must not
+	// bypass the forbidden-code-point scan) and next to ordinary text
+	"a≠<b", "x≯^y", "≮|", "a≠ b", "≠>", "a≠b<", "<≠", "a≠{b}", "a≠\"b", "≯`", "a≠\x7fb", "a≠b.c", "A≠B"}
 var weirdHosts = []string{"", ".", "..", "...", "a.", "a..", ".a", "a..b", "%41", "%2e", "%2E%2e", "ex%61mple", "a%00b", "a b", "a<b", "a>b", "a|b", "a^b", "a\\b",
 	"a%b", "a%2", "%zz", "a%25b", "a%2525b", "%C3%A4", "%c3%a4", "%E4", "%ff", "%80", "a%C3", "%EF%BF%BD", "a\x00b", "a\x7fb", "a\x1fb", "a%7fb", "a%20b", "a%23b",
 	"a%2Fb", "a%3Ab", "a%40b", "a%5Bb", "[", "]", "[]", "a[b]", "C:", "C|", "c:", "a:b", "a@b", "\xff", "a\xffb", "\xff\xfe", "a\xff\xfeb", "\xc3", "\xc3\n\xa4",
